@@ -145,6 +145,11 @@ type verifC02World struct {
 	allowCancel bool
 	cf          verifC02Conf
 	strict      bool // check "failed => absent" against the ghost log (see VerifC02_failedAbsent)
+	loadErrStep  bool // the current step is a metadata load error
+	allowLoadErr bool // metadata load errors may be reported for the partition (bumpRepeatedLoadErr)
+	loadErrs     int
+	allowProduce bool // one more record may be produced at any step
+	produced     bool
 	noWire      bool // do not serialise requests (symbolic sequence numbers)
 	injected    bool // the broker answered an OUT_OF_ORDER_SEQUENCE_NUMBER of its own
 	idFatal     bool // the producer id failed fatally and the drain failed everything buffered
@@ -525,6 +530,11 @@ func (w *verifC02World) checkFailSafety(headBefore *verifC02GB, openBefore, drai
 	verifAssert(headBefore.recs[0].calls == 1 && err != nil, "failing a partition's records fails its head batch")
 	limit := errors.Is(err, ErrRecordRetries) || errors.Is(err, ErrRecordTimeout) || errors.Is(err, ErrAborting) || errors.Is(err, context.Canceled)
 	retriable := kerr.IsRetriable(err)
+	if w.loadErrStep {
+		verifAssert(!openBefore, "fail-only-when-safe: a metadata load error does not fail a head batch that was sent and not answered")
+		verifAssert(!headBefore.unsure, "fail-only-when-safe: a metadata load error does not fail a head batch whose append is unsure")
+		return
+	}
 	if drainStep {
 		verifAssert(limit, "a drain fails records only for a client-side limit")
 		verifAssert(!openBefore, "fail-only-when-safe: a drain does not fail a head batch that was sent and not answered")
@@ -616,6 +626,56 @@ const (
 	verifC02ActResolve // + fate
 )
 
+const verifC02ActLoadErr = 1001 // a metadata update carries a retriable load error for the partition
+
+const verifC02ActProduce = 1000 // a new record is produced to the partition (once per run, when enabled)
+
+// produceOne buffers one more record through the real bufferRecord while earlier batches may be
+// in flight or rewound, and teaches the ghost which client batch it ended up in.
+func (w *verifC02World) produceOne() {
+	t := &verifC02Rec{offset: -99}
+	r := &Record{Topic: "t", Value: []byte{0xEE}, Timestamp: time.Now().Truncate(time.Millisecond), Context: context.Background()}
+	pr := promisedRec{w.recCtx, func(rr *Record, err error) {
+		t.calls++
+		t.err = err
+		t.offset = rr.Offset
+		t.pid, t.epoch = rr.ProducerID, rr.ProducerEpoch
+		t.order = w.order
+		w.order++
+	}, r}
+	p := &w.cl.producer
+	p.mu.Lock()
+	p.bufferedRecords++
+	p.bufferedBytes += pr.userSize()
+	p.mu.Unlock()
+	w.total++
+	w.bytes += int64(pr.userSize())
+	before := len(w.rb.batches)
+	var lastB *recBatch
+	lastN := 0
+	if before > 0 {
+		lastB = w.rb.batches[before-1]
+		lastN = len(lastB.records)
+	}
+	w.rb.bufferRecord(pr, false)
+	verifRunAll()
+	switch {
+	case len(w.rb.batches) > before:
+		nb := w.rb.batches[len(w.rb.batches)-1]
+		gb := &verifC02GB{idx: len(w.gbs), n: 1, base: -1, recs: []*verifC02Rec{t}}
+		w.gbs = append(w.gbs, gb)
+		w.byB[nb] = gb
+	case lastB != nil && len(lastB.records) == lastN+1:
+		gb := w.byB[lastB]
+		gb.n++
+		gb.recs = append(gb.recs, t)
+	default:
+		// failed right away (its promise ran); it belongs to no batch
+		gb := &verifC02GB{idx: len(w.gbs), n: 1, base: -1, recs: []*verifC02Rec{t}}
+		w.gbs = append(w.gbs, gb)
+	}
+}
+
 func verifC02Run(k int, sizes []int, fresh bool, cf verifC02Conf, strict bool) {
 	w := verifC02Build(sizes, fresh, cf)
 	w.strict = strict
@@ -637,6 +697,12 @@ func (w *verifC02World) run(k int) {
 		if cf.trig >= verifC02TrigCtx && !fired {
 			acts = append(acts, verifC02ActTrigger)
 		}
+		if w.allowProduce && !w.produced {
+			acts = append(acts, verifC02ActProduce)
+		}
+		if w.allowLoadErr && w.loadErrs < 2 && len(w.rb.batches) > 0 {
+			acts = append(acts, verifC02ActLoadErr)
+		}
 		for f := 0; f < verifC02NumFates; f++ {
 			if w.canResolve(f) {
 				acts = append(acts, verifC02ActResolve+f)
@@ -654,6 +720,15 @@ func (w *verifC02World) run(k int) {
 		case a == verifC02ActTrigger:
 			fired = true
 			w.trigger(cf.trig)
+		case a == verifC02ActProduce:
+			w.produced = true
+			w.produceOne()
+		case a == verifC02ActLoadErr:
+			// a metadata refresh reports a retriable load error for the partition
+			w.loadErrs++
+			w.loadErrStep = true
+			w.rb.bumpRepeatedLoadErr(kerr.LeaderNotAvailable)
+			verifRunAll()
 		default:
 			ok = w.resolve(a - verifC02ActResolve)
 		}
@@ -662,6 +737,7 @@ func (w *verifC02World) run(k int) {
 		}
 		w.checkI2()
 		w.checkFailSafety(head, open, drain)
+		w.loadErrStep = false
 	}
 	w.final()
 	verifReached("c02-cosim")
@@ -699,6 +775,38 @@ func VerifC02_cosim() {
 	fresh := (verifThorough() || len(sizes) < 3) && verifChoose(2) == 0
 	cf := confs[verifChoose(len(confs))]
 	verifC02Run(k, sizes, fresh, cf, false)
+}
+
+// VerifC02_produceDuringRetry: the application keeps producing to the partition while an
+// earlier batch is in flight, lost or rewound for a retry; a record produced then must never
+// join a batch the broker may already hold (its sequence range is fixed once sent).
+func VerifC02_produceDuringRetry() {
+	k := 4
+	if verifThorough() {
+		k = 5
+	}
+	sizes := [][]int{{1}, {2}, {1, 1}}[verifChoose(3)]
+	fresh := verifChoose(2) == 0
+	w := verifC02Build(sizes, fresh, verifC02Conf{trig: verifC02TrigNone})
+	w.allowProduce = true
+	w.checkI2()
+	w.run(k)
+}
+
+// VerifC02_loadErrors: metadata load errors (bumpRepeatedLoadErr) interleaved with drains and
+// request fates; with RecordRetries(0) a load error may fail the head batch only when that is
+// safe (never sent, or sent and answered).
+func VerifC02_loadErrors() {
+	k := 4
+	if verifThorough() {
+		k = 5
+	}
+	sizes := [][]int{{1}, {2, 1}}[verifChoose(2)]
+	fresh := verifChoose(2) == 0
+	w := verifC02Build(sizes, fresh, verifC02Conf{trig: verifC02TrigRetries})
+	w.allowLoadErr = true
+	w.checkI2()
+	w.run(k)
 }
 
 // VerifC02_failedAbsent: the property's last sentence taken literally, checked against the
